@@ -9,6 +9,7 @@ SPEC_MODE = "oracle"
 KEEP_PREFIX = 2          # `clock` + `load` lines are never removed by the shrinker
 SIZES = {"quick": 1500, "thorough": 30000}
 BATCH = 1500
+EXTRA_MODULES = ("Sentinel.Lemmas.Hot", "Sentinel.Lemmas.HotSV", "Sentinel.Lemmas.HotSim")
 RULE = ("cases = one LoadRules (1-3 hotspot QPS rules over 1-2 resources: reject / throttling / a slice of invalid or unsupported ones; "
         "thresholds, bursts, durations, queueing limits, specific-item tables, param index incl. negative and out of range, param key, "
         "ParamsMaxCapacity 0 (default) or 1..6) followed by 20-160 api.Entry calls whose arguments/attachments are drawn from a pool of 1-9 "
